@@ -15,17 +15,19 @@ UNSPANNED_OK = ("Missing field", "Unsupported shape", "Unions are not supported"
 
 
 def c03_judge_outer(c, a):
-    """element-level receivers: a spanned leaf lies inside one of the element's attributes; only
-    root absences, whole-element verdicts and errors of the user's `attrs` function are unspanned"""
+    """element-level receivers: a spanned leaf lies inside one of the element's attributes (or, for
+    errors spanned by a SpannedValue<..> body entry, inside that field / variant); only root
+    absences, whole-element verdicts and errors of the user's `attrs` function are unspanned"""
     spans = []
 
     def walk(x):
         if isinstance(x, list):
-            if x and x[0] == "attr":
-                try:
-                    spans.append((int(x[-2]), int(x[-1])))
-                except Exception:
-                    pass
+            if x and x[0] in ("attr", "field", "variant"):
+                # a field / variant of the body is itself an enclosing element: SpannedValue<..> entries
+                # span an inner error with the whole field or variant
+                nums = [y for y in x[1:] if isinstance(y, str) and y.isdigit()]
+                if len(nums) >= 2:
+                    spans.append((int(nums[-2]), int(nums[-1])))
             for y in x:
                 walk(y)
     walk(c[2])
